@@ -2,6 +2,7 @@
   C17 — fill_inplace only turns spaces into newlines and agrees with fill.
 -/
 import Lemmas.Inplace
+import Lemmas.InplaceWrap
 namespace TW.C17
 
 theorem spToLF_length {a b : Text} (h : SpToLF a b) : a.length = b.length := by
@@ -43,6 +44,128 @@ theorem inplace_structure (cw : Char → Nat) (text : Text) (width : Nat) :
   fillInplace_eq α cw text width
 
 end
+
+/-! ### agreement with `wrap` -/
+
+/-- per paragraph: what `wrap` renders under the documented options are the slices of the groups
+    `fill_inplace` computes — through the shortcut or the general path -/
+theorem doc_line (env : Env) (hcw : ∀ c, env.cw c ≤ c.utf8Size) (mo : MinimaOracle Int) (w : Nat) (p : Text) (n : Nat) :
+    (wrapSingleLine env mo (docOpts w) p n).map (·.map LineD.render) =
+      some ((inplaceGroups Int env.cw w p).map groupSlice) := by
+  unfold wrapSingleLine
+  have hind : (if n = 0 then (docOpts w).initialIndent else (docOpts w).subsequentIndent) = [] := by
+    split <;> rfl
+  by_cases hc : blen p < (docOpts w).width ∧ (if n = 0 then (docOpts w).initialIndent else (docOpts w).subsequentIndent).isEmpty = true
+  · rw [if_pos hc]
+    -- everything fits on one line: a single group holding all words
+    have hfrag : ∀ x ∈ findWordsAscii env.cw p, FragOk env.cw x := by
+      intro x hx; obtain ⟨t, _, rfl⟩ := List.mem_map.mp hx; exact from_fragOk _ t
+    have hnp : NoPen (findWordsAscii env.cw p) := by
+      intro x hx; obtain ⟨t, _, rfl⟩ := List.mem_map.mp hx; rfl
+    have hsum := fragSum_le_blen env.cw hcw _ hfrag
+    rw [findWordsAscii_text] at hsum
+    have hwd : (docOpts w).width = w := rfl
+    rw [hwd] at hc
+    have hone : inplaceGroups Int env.cw w p = [findWordsAscii env.cw p] := by
+      unfold inplaceGroups wrapFirstFit
+      have := ffGo_one_line [CostNum.ofNat w] (defaultLw [CostNum.ofNat (α := Int) w]) 0 [] (findWordsAscii env.cw p) 0
+        (by simp) hnp (by
+          simp only [fragSum_nil, Nat.zero_add, List.getD_cons_zero, ofNat_int]
+          have := hc.1
+          exact_mod_cast (by omega : fragSum (findWordsAscii env.cw p) ≤ w))
+      simpa using this
+    rw [hone]
+    simp only [Option.map_some, List.map_cons, List.map_nil, LineD.render, List.nil_append, List.append_nil,
+      Option.some.injEq, List.cons.injEq, and_true]
+    have hl := pipeline_lastOk_ascii env (docOpts w) rfl (builtin_inRange _ _ (by simp [docOpts, Builtin])) p 0 _
+      (pipeline_doc env w p 0)
+    -- groupSlice of all words = trimEndSp p
+    have hsl : (groupSlice (findWordsAscii env.cw p)).getLast? ≠ some SP := by
+      have hfe := pipeline_fragEnds_ascii env (docOpts w) rfl (by simp [docOpts, Builtin]) p 0 _ (pipeline_doc env w p 0)
+      exact groupSlice_no_trailing_sp _ hfe [] _ [] (by simp)
+    have := (group_trim (findWordsAscii env.cw p) hsl (groupGap_spaces env.cw _ hfrag)).1
+    rw [findWordsAscii_text] at this
+    exact this
+  · rw [if_neg hc]
+    exact doc_slow Int env mo w p n
+
+theorem wrapR_of_lines (elen : Nat) (single : Text → Nat → Option (List LineD)) (F : Text → List Text)
+    (ps : List Text) (h : ∀ p ∈ ps, ∀ n, (single p n).map (·.map LineD.render) = some (F p)) (off n : Nat) :
+    wrapR elen single ps off n = some ((ps.map F).flatten) := by
+  induction ps generalizing off n with
+  | nil => rfl
+  | cons p r ih =>
+    rw [wrapR_cons]
+    have hp := h p (by simp) n
+    cases hs : single p n with
+    | none => simp [hs] at hp
+    | some ls =>
+      simp only [hs, Option.map_some, Option.some.injEq] at hp
+      simp only
+      rw [ih (fun x hx => h x (by simp [hx]))]
+      simp [hp]
+
+theorem splitLF_textSegs (cw : Char → Nat) (w : Nat) (ps : List Text)
+    (hpara : ∀ p ∈ ps, (splitLF (segOut (paraSegs (inplaceGroups Int cw w p)))).map trimEndSp =
+      (inplaceGroups Int cw w p).map groupSlice) (hne : ps ≠ []) :
+    (splitLF (segOut (textSegs Int cw w ps))).map trimEndSp =
+      (ps.map fun p => (inplaceGroups Int cw w p).map groupSlice).flatten := by
+  match ps, hne with
+  | [p], _ => simpa [textSegs] using hpara p (by simp)
+  | p :: q :: r, _ =>
+    have ih := splitLF_textSegs cw w (q :: r) (fun x hx => hpara x (by simp [hx])) (by simp)
+    simp only [textSegs, segOut_append, segOut, List.append_assoc, List.singleton_append, List.append_nil]
+    rw [splitLF_append]
+    simp only [List.map_append, hpara p (by simp), ih, List.map_cons, List.flatten_cons]
+
+/-- **agreement with `wrap`.** Splitting the result of `fill_inplace(text, w)` at newlines and
+    trimming trailing spaces gives exactly the lines of `wrap(text)` with the documented options
+    (width `w`, `break_words` off, LF, ASCII separator, first-fit, no hyphenation) — for every
+    text and width; the byte-length shortcut of `wrap` included. -/
+-- @audit TW.C17.inplace_eq_wrap
+theorem inplace_eq_wrap (env : Env) (hcw : ∀ c, env.cw c ≤ c.utf8Size) (mo : MinimaOracle Int)
+    (text : Text) (w : Nat) :
+    ∃ r, fillInplace Int env.cw text w = some r ∧
+      wrap env mo (docOpts w) text = some ((splitLF r).map trimEndSp) := by
+  obtain ⟨h1, h2⟩ := fillInplace_eq Int env.cw text w
+  refine ⟨_, h1, ?_⟩
+  -- the wrap side
+  have hwrap : wrap env mo (docOpts w) text =
+      some (((splitLF text).map fun p => (inplaceGroups Int env.cw w p).map groupSlice).flatten) := by
+    show wrapR _ (wrapSingleLine env mo (docOpts w)) (splitLF text) 0 0 = _
+    exact wrapR_of_lines _ _ _ _ (fun p _ n => doc_line env hcw mo w p n) 0 0
+  rw [hwrap]
+  congr 1
+  symm
+  apply splitLF_textSegs env.cw w (splitLF text) _ (splitLF_ne_nil text)
+  intro p hp
+  have hpno : LF ∉ p := splitLF_no_LF text p hp
+  obtain ⟨g1, g2⟩ := inplaceGroups_ok Int env.cw w p
+  have hfrag : ∀ x ∈ findWordsAscii env.cw p, FragOk env.cw x := by
+    intro x hx; obtain ⟨t, _, rfl⟩ := List.mem_map.mp hx; exact from_fragOk _ t
+  have hfe := pipeline_fragEnds_ascii env (docOpts w) rfl (by simp [docOpts, Builtin]) p 0 _ (pipeline_doc env w p 0)
+  have hsub : ∀ g ∈ inplaceGroups Int env.cw w p, ∀ x ∈ g, x ∈ findWordsAscii env.cw p := by
+    intro g hg x hx; rw [← g1]; exact List.mem_flatten.mpr ⟨g, hg, hx⟩
+  apply splitLF_segOut_para
+  · -- group texts are LF-free: they are parts of the paragraph
+    intro g hg hmem
+    apply hpno
+    have : LF ∈ wordsText (inplaceGroups Int env.cw w p).flatten := by
+      obtain ⟨pre, post, hpp⟩ := List.append_of_mem hg
+      rw [hpp]; simp only [List.flatten_append, List.flatten_cons, wordsText_append]
+      exact List.mem_append_right _ (List.mem_append_left _ hmem)
+    rw [g1, findWordsAscii_text] at this
+    exact this
+  · exact g2
+  · intro g hg
+    obtain ⟨pre, post, hpp⟩ := List.append_of_mem hg
+    exact groupSlice_no_trailing_sp _ hfe pre.flatten g post.flatten (by rw [← g1, hpp]; simp)
+  · intro g hg
+    exact groupGap_spaces env.cw g (fun x hx => hfrag x (hsub g hg x hx))
+  · obtain ⟨x, r, hx⟩ := ffGo_head (fragOf (α := Int)) [CostNum.ofNat w] (defaultLw [CostNum.ofNat (α := Int) w]) 0 [] 0
+      (findWordsAscii env.cw p)
+    unfold inplaceGroups wrapFirstFit
+    rw [hx]; simp
 
 /-! non-vacuity (a test, labelled as such) -/
 example : (fillInplace Int (fun _ => 1) "foo bar baz".toList 7).map String.ofList = some "foo bar\nbaz" := by decide
